@@ -457,15 +457,18 @@ def _local_renaming(unit_name, qual, body):
             return None
     for k, (a, b) in enumerate(zip(base, now)):
         prev, nxt = (base[k - 1] if k else ""), (base[k + 1] if k + 1 < len(base) else "")
-        if a in ren and (a == b or prev in (".", "::") or nxt in ("(", "::", "!")):
-            return None      # the old name also stands for something that is not this variable (field, method, path, macro)
-        if a == b and a in back:
-            return None      # the new name already meant something else in the pinned body
+        fnish = prev in (".", "::") or nxt in ("(", "::", "!")       # a field, method, path segment, call or macro - not a plain variable
+        if a in ren and a != b and fnish:
+            return None      # a renamed occurrence is not a plain variable
+        if a in ren and a == b and not fnish:
+            return None      # the variable was renamed in some places only
+        if a == b and a in back and not fnish:
+            return None      # the new name already was a variable of the pinned body
     return ren
 
 
 def _rename_idents(text, ren):
-    return re.sub(r"(?<![\w.])(%s)(?!\w)" % "|".join(re.escape(k) for k in ren), lambda m: ren[m.group(1)], text)
+    return re.sub(r"(?<![\w.:])(%s)(?!\w|\s*\(|::|!)" % "|".join(re.escape(k) for k in ren), lambda m: ren[m.group(1)], text)
 
 
 def _split_params(text):
